@@ -382,8 +382,9 @@ type GCase struct {
 
 var registries = []string{"localhost:5000", "example.com", "reg-a.test", "127.0.0.1:8080", "[::1]:5000", "[2001:db8::1]", "docker.io", "registry-1.docker.io", "a", "REG.Example.COM", "x_y.z"}
 var repoParts = []string{"a", "lib", "foo-bar", "foo--bar", "a.b", "a_b", "a__b", "0", "9z"}
-var tags = []string{"latest", "v1.0.0", "_x", "A", "a.b-c_d", strings.Repeat("t", 128), "0"}
-var editChars = []string{"a", "A", "0", ".", "-", "_", ":", "@", "/", "[", "]", "%", " ", "\n", "?", "#", "\\", "é"}
+// the last three are NOT tags: digits and letters outside ASCII
+var tags = []string{"latest", "v1.0.0", "_x", "A", "a.b-c_d", strings.Repeat("t", 128), "0", "v٣", "１.0", "réf"}
+var editChars = []string{"a", "A", "0", ".", "-", "_", ":", "@", "/", "[", "]", "%", " ", "\n", "?", "#", "\\", "é", "٣", "３", "५", "𝟗", "Ａ", "ſ", "K"}
 
 func digestFor(alg string, seed int) string {
 	h := sha256.Sum256([]byte(fmt.Sprint(seed)))
@@ -606,7 +607,9 @@ func runG(c GCase) (res vt.Result, fail *vt.Fail) {
 		repo.FetchReference(ctx, want.Reference)
 	}
 	repo.Tags(ctx, "", func([]string) error { return nil })
-	// every spelling of the reference, through every by-reference entry point
+	// every spelling of the reference, through every by-reference entry point (the
+	// repository has learnt by now that the registry supports the Referrers API)
+	repo.SetReferrersCapability(true)
 	for _, form := range forms {
 		repo.Resolve(ctx, form)
 		repo.FetchReference(ctx, form)
